@@ -373,8 +373,12 @@ func (r *checkRun) run() int {
 	data, _ := json.MarshalIndent(ev, "", " ")
 	os.WriteFile(filepath.Join(verifRoot, "evidence", r.prop+".json"), data, 0o644)
 
+	seenKF := map[string]bool{}
 	for _, l := range knownHit {
-		fmt.Println(l)
+		if !seenKF[l] {
+			seenKF[l] = true
+			fmt.Println(l)
+		}
 	}
 	fmt.Printf("%s: %d/%d ledger obligations discharged, %d functions, %d undecided extra, %d bounded checks, %.1fs\n", r.prop, discharged, required, len(funcsUnder), len(undecided), len(bounded), time.Since(r.start).Seconds())
 	if machinery {
